@@ -494,6 +494,7 @@ pub fn judge_c18(h: &History) -> Outcome {
             FaultSite::ProbeNext => "site=probe-next",
             FaultSite::Clone => "site=clone",
             FaultSite::Closure => "site=closure",
+            FaultSite::Drop => "site=drop",
         });
     }
     let seq = h.sched.sequential;
@@ -1039,6 +1040,9 @@ pub fn check(ctx: &mut Ctx) -> Option<Meta> {
                 Plan { name: "sched-progress-wrapped", cfg: cfg_c09(t, false), eval: eval_c09, quick: 25_000, thorough_factor: 25 },
                 Plan { name: "sched-lockfree-known-size", cfg: cfg_c09(t, true), eval: eval_c09, quick: 25_000, thorough_factor: 25 },
                 Plan { name: "sched-progress-after-panic", cfg: { let mut c = cfg_c09(t, false); c.fault_sites = vec![FaultSite::ProbeNext, FaultSite::ProbeNext, FaultSite::Closure]; c }, eval: eval_c09, quick: 15_000, thorough_factor: 25 },
+                // a thread stops pulling because the destructor of an element it had left in its chunk buffer panics
+                // while the buffer is refilled (owning wrapped iterators hold such elements during their turn)
+                Plan { name: "sched-progress-after-drop-panic", cfg: { let mut c = cfg_c09(t, false); c.kinds = vec![Kind::IterOwn]; c.layouts = vec![Layout::Tracked]; c.fault_sites = vec![FaultSite::Drop]; c.w_bufnext = 8; c.w_bufnew = 3; c.w_chunk = 3; c.w_drain_composite = 0; c.max_len = if t { 24 } else { 12 }; c }, eval: eval_c09, quick: 15_000, thorough_factor: 25 },
                 Plan { name: "sched-dfs-progress", cfg: { let mut c = cfg_small(WRAPPED); c.w_skip = 1; c }, eval: eval_c09_dfs, quick: dfsq, thorough_factor: 4 },
             ],
         ),
@@ -1047,6 +1051,8 @@ pub fn check(ctx: &mut Ctx) -> Option<Meta> {
             vec![
                 Plan { name: "seq-len", cfg: cfg_c11(t, true), eval: eval_c11_seq, quick: 300_000, thorough_factor: 25 },
                 Plan { name: "sched-len-racing", cfg: cfg_c11(t, false), eval: eval_c11, quick: 40_000, thorough_factor: 25 },
+                // nested iterators: inner.values().into_con_iter() while elements are also pulled from `inner` directly
+                Plan { name: "nested-len", cfg: crate::nested::cfg(t), eval: crate::nested::eval_c11_nested, quick: 10_000, thorough_factor: 25 },
                 // the end reached because the wrapped iterator panicked: lengths must still be what later pulls deliver
                 Plan { name: "seq-len-after-panic", cfg: { let mut c = cfg_c11(t, true); c.kinds = WRAPPED.to_vec(); c.fault_sites = vec![FaultSite::ProbeNext]; c.w_skip = 0; c.end_with_drain = true; c.huge_chunks = false; c }, eval: eval_c11_seq, quick: 40_000, thorough_factor: 25 },
             ],
@@ -1087,6 +1093,9 @@ pub fn check(ctx: &mut Ctx) -> Option<Meta> {
 }
 
 pub fn eval_for(prop: &str, engine: &str) -> Option<fn(&Case) -> Outcome> {
+    if engine == "nested" {
+        return Some(crate::nested::eval_c11_nested);
+    }
     let seq = engine == "seq";
     Some(match (prop, seq) {
         ("C01", false) => eval_c01,
